@@ -375,8 +375,14 @@ func c12HonestCase(r *c12Rand, leg string, id int, maxBody, maxMTU int, small bo
 		}
 		d.msgs = append(d.msgs, m)
 		fr := c12Split(m, mtu)
-		if small && n > 0 && r.chance(10) { // a trailing zero-length fragment is still a duplicate-free partition
-			fr = append(fr, c12Frag{Ty: m.Ty, Len: n, Seq: s, Off: n, Flen: 0, data: []byte{}})
+		if small && n > 0 && r.chance(15) { // zero-length fragments at fragment boundaries (ignored by the receiver)
+			for z := 1 + r.intn(2); z > 0; z-- {
+				off := mtu * r.intn((n+mtu-1)/mtu+1)
+				if off > n {
+					off = n
+				}
+				fr = append(fr, c12Frag{Ty: m.Ty, Len: n, Seq: s, Off: off, Flen: 0, data: []byte{}})
+			}
 		}
 		budget -= len(fr)
 		all = append(all, fr...)
@@ -592,7 +598,8 @@ func c12LimitCases(emit func(c12Case)) {
 	emit(c12Case{Leg: "limits", ID: 1, Note: "buffer size limit", Ops: d.ops})
 }
 
-// concrete witnesses of the *_refuted lemmas of Frag/BufferSound.v, replayed on the implementation
+// regression corpus (the two inputs that failed before the fix "ignore empty handshake fragments
+// that cannot belong to a message") and the documented liveness boundaries of Frag/BufferSound.v
 func c12WitnessCases(emit func(c12Case)) {
 	one := func(fr ...c12Frag) c12Rec { return c12Rec{Kind: "hs", Ep: 0, Frags: fr} }
 	body := []byte{1, 2, 3, 4}
@@ -601,26 +608,28 @@ func c12WitnessCases(emit func(c12Case)) {
 		return c12Frag{Ty: 1, Len: 4, Seq: 0, Off: off, Flen: fl, data: body[off : off+fl]}
 	}
 
-	// BufferSound.panic_record: Length 0, zero-length fragment at offset 1
+	// BufferSound.old_panic_record: Length 0, zero-length fragment at offset 1 (Pop used to panic)
 	d := &c12Driver{fb: New(), small: true, raw: true}
 	d.push(one(c12Frag{Ty: 14, Len: 0, Seq: 0, Off: 1, Flen: 0, data: []byte{}}))
-	emit(c12Case{Leg: "witness", ID: 0, Note: "panic", Ops: d.ops})
+	emit(c12Case{Leg: "regress", ID: 0, Note: "old-panic-input", Ops: d.ops})
+
+	// BufferSound.zf_history: partition (0,2)(2,0)(2,2); the zero-length fragment arrives before (2,2)
+	// (used to wedge the message for ever)
+	d = &c12Driver{fb: New(), small: true, raw: true, msgs: []c12Msg{msg}}
+	for _, x := range []c12Frag{f(0, 2), f(2, 0), f(2, 2)} {
+		d.push(one(x))
+	}
+	emit(c12Case{Leg: "regress", ID: 1, Note: "zero-fragment", Honest: true, OnePar: true, Msgs: d.msgs, Ops: d.ops})
 
 	// BufferSound.rp_history: MTU-2 and MTU-3 partitions of the same message mixed, then everything again
 	d = &c12Driver{fb: New(), small: true, raw: true, msgs: []c12Msg{msg}}
 	for _, x := range []c12Frag{f(0, 2), f(3, 1), f(2, 2), f(0, 3), f(0, 2), f(2, 2), f(0, 3), f(3, 1)} {
 		d.push(one(x))
 	}
-	emit(c12Case{Leg: "witness", ID: 1, Note: "repartition", Honest: true, Msgs: d.msgs, Ops: d.ops})
+	emit(c12Case{Leg: "boundary", ID: 0, Note: "repartition", Honest: true, Msgs: d.msgs, Ops: d.ops})
 
-	// BufferSound.zf_history: partition (0,2)(2,0)(2,2); the zero-length fragment arrives before (2,2)
-	d = &c12Driver{fb: New(), small: true, raw: true, msgs: []c12Msg{msg}}
-	for _, x := range []c12Frag{f(0, 2), f(2, 0), f(2, 2), f(0, 2), f(2, 0), f(2, 2)} {
-		d.push(one(x))
-	}
-	emit(c12Case{Leg: "witness", ID: 2, Note: "zero-fragment", Honest: true, Msgs: d.msgs, Ops: d.ops})
-
-	// BufferSound.cap_history: 1001 one-byte fragments of one message (MTU 1), in order, then all again
+	// BufferSound.cap_history: 1001 one-byte fragments of one message (MTU 1), in order, then all again:
+	// beyond fragmentBufferMaxCount, the fixed buffering limit
 	big := bytes.Repeat([]byte{7}, 1001)
 	cm := c12Msg{Ty: 11, Seq: 0, Len: 1001, Mtu: 1, body: big, Body: hex.EncodeToString(big)}
 	d = &c12Driver{fb: New(), small: true, msgs: []c12Msg{cm}}
@@ -630,7 +639,7 @@ func c12WitnessCases(emit func(c12Case)) {
 			d.push(one(x))
 		}
 	}
-	emit(c12Case{Leg: "witness", ID: 3, Note: "capacity", Honest: true, Msgs: d.msgs, Ops: d.ops})
+	emit(c12Case{Leg: "boundary", ID: 1, Note: "capacity", Honest: true, Msgs: d.msgs, Ops: d.ops})
 }
 
 // TestVerifC12Buffer emits all legs.
